@@ -427,10 +427,12 @@ class AsyncServer(base_server.BaseServer):
             eio_sid = self.manager.pre_disconnect(sid, namespace=namespace)
             await self._send_packet(eio_sid, self.packet_class(
                 packet.DISCONNECT, namespace=namespace))
-            await self._trigger_event('disconnect', namespace, sid,
-                                      self.reason.SERVER_DISCONNECT)
-            await self.manager.disconnect(sid, namespace=namespace,
-                                          ignore_queue=True)
+            try:
+                await self._trigger_event('disconnect', namespace, sid,
+                                          self.reason.SERVER_DISCONNECT)
+            finally:
+                await self.manager.disconnect(sid, namespace=namespace,
+                                              ignore_queue=True)
 
     async def shutdown(self):
         """Stop Socket.IO background tasks.
@@ -583,9 +585,11 @@ class AsyncServer(base_server.BaseServer):
         if not self.manager.is_connected(sid, namespace):  # pragma: no cover
             return
         self.manager.pre_disconnect(sid, namespace=namespace)
-        await self._trigger_event('disconnect', namespace, sid,
-                                  reason or self.reason.CLIENT_DISCONNECT)
-        await self.manager.disconnect(sid, namespace, ignore_queue=True)
+        try:
+            await self._trigger_event('disconnect', namespace, sid,
+                                      reason or self.reason.CLIENT_DISCONNECT)
+        finally:
+            await self.manager.disconnect(sid, namespace, ignore_queue=True)
 
     async def _handle_event(self, eio_sid, namespace, id, data):
         """Handle an incoming client event."""
@@ -705,10 +709,18 @@ class AsyncServer(base_server.BaseServer):
 
     async def _handle_eio_disconnect(self, eio_sid, reason):
         """Handle Engine.IO disconnect event."""
+        exc = None
         for n in list(self.manager.get_namespaces()).copy():
-            await self._handle_disconnect(eio_sid, n, reason)
+            try:
+                await self._handle_disconnect(eio_sid, n, reason)
+            except Exception as e:
+                # a failing handler must not keep the other namespaces alive
+                exc = exc or e
         if eio_sid in self.environ:
             del self.environ[eio_sid]
+        self._binary_packet.pop(eio_sid, None)
+        if exc:
+            raise exc
 
     def _engineio_server_class(self):
         return engineio.AsyncServer
